@@ -359,9 +359,18 @@ func C11(c *run.Check) {
 			r.runGrid(len(rd), func(i int) *adoc.Doc { return rd[i].Clone().Finish() }, re, func(nd *adoc.Node) bool { return nd.Kind == adoc.Root })
 		}
 	}
+	// a prefix bound to the EMPTY namespace name is bound (it names the names in no
+	// namespace), not unbound
+	if c.Violations() == 0 || triage {
+		ee := mustParse([]string{"//n:a", "//n:*", "//@n:x", "//n:a/@n:x", "count(//n:*)", "//*[n:a]", "//n:b | //p:a", "//p:*/n:*", "//n:*/@n:*", "count(//@n:*)", "//*[@n:x]", "//n:a[1]", "/n:*", "//n:nosuch", "//m:a", "name(//n:*[1])", "//*/n:a/.."})
+		for ai, m := range []map[string]string{{"n": ""}, {"n": "", "p": adoc.URI_U}, {"n": "", "p": adoc.URI_V, "q": ""}} {
+			r := newXRunner(c, "C11", EnvSpec{NS: m, Assign: ai == 1})
+			r.runGrid(len(jobs), func(i int) *adoc.Doc { return adoc.Instantiate(jobs[i].f, jobs[i].deco) }, ee, func(nd *adoc.Node) bool { return nd.Kind == adoc.Root })
+		}
+	}
 	c.Sample(map[string]interface{}{"doc": adoc.Instantiate(jobs[len(jobs)-3].f, adoc.D3).String(), "expr": "//*[f(position(), last())]", "bindings": envs[5]})
 	c.Sample(map[string]interface{}{"doc": adoc.Instantiate(jobs[len(jobs)/2].f, adoc.D2).String(), "expr": "//@p:x", "bindings": envs[12]})
-	c.Rule = fmt.Sprintf("forests <=%d nodes x decorations with elements/attributes in namespaces urn:u/urn:v/default x %d binding environments (every other one handed over by ASSIGNING caller-built maps to the ContextSettings fields, as the command line tool does, the rest through WithNS/WithVariable/WithFunction; p,q each unbound/urn:u/urn:v incl. aliases; function library none / f,p:f / + q:f and user count() and true() shadowing builtins; variables of all four types in no namespace and in two namespaces) x %d expressions (prefixed and wildcard name tests on elements and attributes, variable references, user-function calls in paths, predicates and arguments, unbound prefix/variable/function, prefixed calls whose local name spells a core function); result compared with the reference evaluated under the same bindings, and the (arguments, context nodes, position, size) seen by the recording user functions compared as multisets; non-trivial = distinct (expression, context kind, result)", n, len(envs), len(exprs))
+	c.Rule = fmt.Sprintf("forests <=%d nodes x decorations with elements/attributes in namespaces urn:u/urn:v/default x %d binding environments (every other one handed over by ASSIGNING caller-built maps to the ContextSettings fields, as the command line tool does, the rest through WithNS/WithVariable/WithFunction; p,q each unbound/urn:u/urn:v incl. aliases; function library none / f,p:f / + q:f and user count() and true() shadowing builtins; variables of all four types in no namespace and in two namespaces) x %d expressions (prefixed and wildcard name tests on elements and attributes, variable references, user-function calls in paths, predicates and arguments, unbound prefix/variable/function, prefixed calls whose local name spells a core function); 3 environments with a prefix bound to the empty namespace name x 17 prefixed name tests; result compared with the reference evaluated under the same bindings, and the (arguments, context nodes, position, size) seen by the recording user functions compared as multisets; non-trivial = distinct (expression, context kind, result)", n, len(envs), len(exprs))
 	c.Set("environments", len(envs))
 	c.Set("documents", len(jobs))
 	c.Assume("the library's Context.ContextPosition() is 0-based (position()-1); unbound names appear only where every evaluator must evaluate them")
